@@ -812,6 +812,11 @@ fn sys_member_invite_3pid(g: &mut Gen<'_>, v: u32) {
     tpes.push(("pk-int", Some(cobj(json!({"public_key": 1})))));
     tpes.push(("pk-other", Some(cobj(json!({"public_key": "AAAA", "public_keys": []})))));
     tpes.push(("pks", Some(cobj(json!({"public_key": "AAAA", "public_keys": [{"public_key": "!!"}, {"public_key": pk, "key_validity_url": "u"}]})))));
+    // the signing key only at top level, next to a well-formed list that does not repeat it (seed3 C08-2)
+    tpes.push(("pk-with-other-pks", Some(cobj(json!({"public_key": pk, "public_keys": [{"public_key": "AAAA"}]})))));
+    tpes.push(("pk-with-other-pks2", Some(cobj(json!({"public_key": pk, "public_keys": [{"public_key": "AAAA"}, {"public_key": "BBBB", "key_validity_url": "u"}]})))));
+    tpes.push(("pks-first-of-two", Some(cobj(json!({"public_key": "AAAA", "public_keys": [{"public_key": pk}, {"public_key": "BBBB"}]})))));
+    tpes.push(("pk-and-pks-same", Some(cobj(json!({"public_key": pk, "public_keys": [{"public_key": pk}]})))));
     tpes.push(("pks-null", Some(cobj(json!({"public_key": pk, "public_keys": null})))));
     tpes.push(("pks-obj", Some(cobj(json!({"public_key": pk, "public_keys": {}})))));
     tpes.push(("pks-bad-item", Some(cobj(json!({"public_key": pk, "public_keys": [1]})))));
